@@ -817,7 +817,6 @@ func derivesFromValue(v, src ssa.Value, depth int) bool {
 	return false
 }
 
-
 // ownsRegistryState: f operates on a registry value handed to it as its receiver or — for a plain function that takes
 // the registry as its first argument — as that argument (methods and such functions are interchangeable spellings).
 func ownsRegistryState(f *ssa.Function) bool {
